@@ -240,11 +240,11 @@ let h_hist (a : string array) : string =
     end
   with Model_err e -> Buffer.add_string out ("MODELERR=" ^ e));
   (* theorem coverage (a trailing @tag is stripped and counted by tools/check.py, never compared): does this history satisfy the
-     boolean hypothesis accepted_rulesD of C06_history_extractedD / C07_balanced_extractedD (histories with cJSON_Duplicate included), i.e. is its whole run — results, heap,
+     boolean hypothesis accepted_rulesR of C06_history_extractedR / C07_balanced_extractedR (histories with cJSON_Duplicate and with queries through reference nodes included), i.e. is its whole run — results, heap,
      ledger — a consequence of the theorem?  Only failure-free histories of modelled calls can. *)
   (if a.(2) = "0" && ops <> [] && List.length ops <= accept_max_ops && List.for_all (fun s -> external_op s = None) ops then
      match (try Some (List.map parse_op ops) with _ -> None) with
-     | Some os -> Buffer.add_string out (if accepted_rulesD os then " @under-theorem:C06_history_extractedD" else " @outside-theorem:C06_history_extractedD")
+     | Some os -> Buffer.add_string out (if accepted_rulesR os then " @under-theorem:C06_history_extractedR" else " @outside-theorem:C06_history_extractedR")
      | None -> ());
   Buffer.contents out
 
